@@ -14,9 +14,10 @@ from vf import check, common, gen, refcodec as rc, tlc
 from vf.common import MachineryError
 
 PROP = "C16"
+csv.field_size_limit(2 ** 31 - 1)       # (one run carries a 17 MiB cell)
 SEL = {"none": None, "n_gt_2": "r.n > 2", "other_y": "r.other == 'y'", "s_b": "r.s == 'b'", "n_ge_other": "r.n >= 2 and r.other == 'y'",
        "other_ge_x": "r.other >= 'x'", "not_other_y": "not (r.other == 'y')"}
-R = {1: [(1, "A"), (2, "B"), (3, "A")], 2: [(4, "B"), (5, "A"), (6, "B")], 3: [(7, "A"), (8, "A2")]}
+R = {1: [(1, "A"), (3, "A"), (2, "B")], 2: [(4, "B"), (5, "A"), (6, "B")], 3: [(7, "A"), (9, "A"), (8, "A2")]}      # (1 and 3, 7 and 9: two frames of the same length in a row)
 
 
 def descs():
@@ -28,9 +29,9 @@ def descs():
     return A, B, A2
 
 
-def mkrec(A, B, i, d, A2=None):
+def mkrec(A, B, i, d, A2=None, big=False):
     if d == "A2":
-        return A2(i, "a" if i % 2 == 1 else "b", "e", _source="orig", _generated=gen.GEN)
+        return A2(i, "a" if i % 2 == 1 else "b", "e" * (17 * 2 ** 20) if big else "e", _source="orig", _generated=gen.GEN)
     if d == "A":
         t2 = None if i % 5 == 0 else dt.datetime(2021, 2, i, tzinfo=dt.timezone.utc)       # record 5 has a timestamp field WITHOUT a value
         return A("a" if i % 2 == 1 else "b", i, dt.datetime(2020, 1, i, tzinfo=dt.timezone.utc), t2, _source="orig", _generated=gen.GEN)
@@ -67,22 +68,41 @@ class Files:
         if key in self.cache:
             return self.cache[key]
         gz = idx == 1 and src["kind"] == "good"
-        cutgz = idx == 2 and src["kind"] == "trunc"          # the truncated second source is ALSO compressed (and its gzip trailer is gone)
+        cutgz = idx == 2 and src["kind"] == "trunc"          # the truncated THIRD source (index 2) is also compressed (and its gzip trailer is gone)
         p = os.path.join(self.tmp, "s_" + hashlib.md5(key.encode()).hexdigest()[:10] + (".records.gz" if gz else ".cut.records.gz" if cutgz else ".records"))
-        if src["kind"] == "garbage":
+        if src["kind"] == "garbage" and idx == 2:
+            # a gzip file whose compressed data is CORRUPT (not cut): the decompressor raises its own kind of error
+            import gzip, zlib
+
+            p = p[: -len(".records")] + ".corrupt.records.gz"
+            blob = bytearray(gzip.compress(rc.header_frame() + b"".join(rc.record_frame("t/b", [("varint", "n"), ("string", "other")], [i, "x" * 40, None, None, None, 1]) for i in range(30)), mtime=0))
+            for j in range(12, 40):
+                blob[j] ^= 0x5A
+            with open(p, "wb") as f:
+                f.write(bytes(blob))
+        elif src["kind"] == "garbage" and idx == 1:
+            # a well-framed stream whose first frame after the header is of a kind no reader knows (the packer raises a bare Exception)
+            with open(p, "wb") as f:
+                import struct
+
+                raw = lambda body: struct.pack(">I", len(body)) + body
+                f.write(rc.header_frame() + raw(bytes([0xC7, 0x02, 0x55, 0x01, 0x02])) + raw(bytes([0xC7, 0x03, 0x0E, 0x7E, 0x01, 0x02])))
+        elif src["kind"] == "garbage":
             with open(p, "wb") as f:
                 f.write(b"this is not a record stream at all, just bytes" * 3)
         elif src["kind"] != "missing":
             praw = p if not cutgz else p[: -len(".gz")]
             with RecordWriter(praw) as w:
                 for r in src["recs"]:
-                    w.write(mkrec(self.A, self.B, r["id"], r["d"], self.A2))
+                    w.write(mkrec(self.A, self.B, r["id"], r["d"], self.A2, big=bool(src.get("big"))))
             if src["kind"] == "trunc":
                 data = open(praw, "rb").read()
                 fr, dec = rc.frames(data), rc.decode_stream(data)
                 recpos = [i for i, x in enumerate(dec) if x[0] == "REC"]
                 f = fr[recpos[src["keep"]]]  # first frame that is NOT intact
-                cut = data[: f[0] + 4 + f[1] // 2]
+                # where inside the first damaged frame the file ends: in the middle, or -- first source -- two bytes before its end
+                # (what is missing then equals the end of the previous frame of the same type)
+                cut = data[: f[0] + 4 + (f[1] // 2 if idx != 0 else f[1] - 2)]
                 if cutgz:
                     import gzip
 
@@ -292,7 +312,9 @@ def run(tier):
     # always include the plain identity run and the documented corner cases
     plain = {"skip": 0, "cnt": 0, "sel": "none", "fields": [], "excl": [], "override": "no", "mts": False, "split": 0, "sl": 0}
     lay_good = [src_choices(1)[0], src_choices(2)[0], src_choices(3)[0]]
-    uni = [(lay_good, plain), (lay_good, dict(plain, mts=True)), (lay_good, dict(plain, sel="other_ge_x")), (lay_good, dict(plain, mts=True, split=1, sl=1)), (lay_good, dict(plain, split=1, sl=1)), ([src_choices(1)[1], src_choices(2)[2], src_choices(3)[0]], plain)] + uni
+    # a legitimately LARGE record (17 MiB of text in one field) in an intact source, followed by nothing / preceded by records
+    lay_big = [src_choices(1)[0], src_choices(2)[0], dict(src_choices(3)[0], big=True)]
+    uni = [(lay_big, plain), (lay_big, dict(plain, sel="other_ge_x")), (lay_good, plain), (lay_good, dict(plain, mts=True)), (lay_good, dict(plain, sel="other_ge_x")), (lay_good, dict(plain, mts=True, split=1, sl=1)), (lay_good, dict(plain, split=1, sl=1)), ([src_choices(1)[1], src_choices(2)[2], src_choices(3)[0]], plain)] + uni
     cases = []
     for k, (lay, cfg) in enumerate(uni):
         modes = [("stream", True), ("stream", False)]
